@@ -205,6 +205,16 @@ func (s *Service) OnCommit(ctx context.Context, _ uint64, account string, confir
 		return nil, nil, fmt.Errorf("have %d contributions, need %d, aborting", len(generation.sharedVVecs), len(generation.participants))
 	}
 
+	// The contributions must come from the listed participants, not just match them in number.
+	for _, participant := range generation.participants {
+		if _, exists := generation.sharedSecrets[participant.ID]; !exists {
+			return nil, nil, fmt.Errorf("no contribution from participant %d, aborting", participant.ID)
+		}
+		if _, exists := generation.sharedVVecs[participant.ID]; !exists {
+			return nil, nil, fmt.Errorf("no verification vector from participant %d, aborting", participant.ID)
+		}
+	}
+
 	privateKey := bls.SecretKey{}
 	for k := range generation.sharedSecrets {
 		sharedSecret := generation.sharedSecrets[k]
@@ -294,6 +304,19 @@ func (s *Service) OnContribute(ctx context.Context,
 	generation, err := s.getGeneration(ctx, account)
 	if err != nil {
 		return bls.SecretKey{}, nil, err
+	}
+
+	// Only the listed participants of this generation may contribute.
+	isParticipant := false
+	for _, participant := range generation.participants {
+		if participant.ID == senderID {
+			isParticipant = true
+			break
+		}
+	}
+	if !isParticipant {
+		log.Warn().Uint64("sender", senderID).Str("account", account).Msg("Received contribution from non-participant")
+		return bls.SecretKey{}, nil, fmt.Errorf("contribution from non-participant %d", senderID)
 	}
 
 	if !verifyContribution(generation.id, secret, vVec) {
